@@ -898,7 +898,7 @@ def run(ctx):
         for e in runs[m].emitted:
             a = e["op"] if e["kind"] == "set" else "Q" + e["op"]
             ctx.actions[a] = ctx.actions.get(a, 0) + 1
-        plan[m] = explore(ctx, m, runs[m], depth, 4000 if th else 150, 10 if th else 8, 60000 if th else 6000)
+        plan[m] = explore(ctx, m, runs[m], depth, 2000 if th else 150, 10 if th else 8, 30000 if th else 6000)
     ctx.require_actions(["Construct", "SetPol", "SetShadow", "SetSigma", "SetN", "SetFc", "SetHbs", "SetHms", "SetArea", "QPLdB", "QPL", "QPLdBArr",
                          "QWhichDistDB", "QWhichDist", "QFriis", "QRel"])
     n = 0
